@@ -3,8 +3,9 @@ import PhpVerif.Model.Traverse
 M-DUMP: the Go-syntax dumper as a table-driven walk producing a flat event list
 (one event per syntactic element of the composite literal).  Hand-modelled
 helpers (Go: dumper.go): dumpPosition, dumpToken, dumpTokenList, dumpVertex,
-dumpVertexList, dumpValue; the per-kind bodies are the regenerated table
-`(fn, label, field)`.
+dumpVertexList, dumpValue (text pinned by the translator); the per-kind bodies are the regenerated
+table `(fn, label, field)`.  Tie: `diff-dumper` — the real dump text, read back line by line into these
+events, under the four option combinations.
 -/
 namespace PhpVerif
 
